@@ -113,18 +113,6 @@ theorem SBytes.run_eq (s : SBytes) (ops : List (Op Byte)) :
 /-! ### SpooledBytesIO refines io.BytesIO -/
 
 
-/-- the domain of the statement, per operation, in the state of the reference file -/
-def okB (f : File Byte) : Op Byte → Bool
-  | .seek p => p ≤ f.data.length
-  | .seekCur n => f.pos + n ≤ f.data.length
-  | .seekEnd n => n ≤ f.data.length
-  | .readlineN n => n ≠ 0
-  | _ => true
-
-def validB (f : File Byte) : List (Op Byte) → Bool
-  | [] => true
-  | op :: ops => okB f op && validB (Spec.step bytesSem f op).2 ops
-
 theorem Spec.next_nil (sem : LineSem α) (f : File α) (h : sem.first f.rest = []) :
     Spec.next sem f = (.stop, f) := by
   unfold Spec.next; simp [h]
